@@ -31,10 +31,33 @@ STRAINS = [np.zeros((3, 3)), np.diag([1e-3, 1e-3, 1e-3]), np.diag([-1e-3, 2e-3, 
            np.array([[3e-3, 1e-3, -2e-3], [1e-3, -5e-3, 4e-3], [-2e-3, 4e-3, 2e-3]])]
 
 
-def rotations(seed):
+def rotations(seed, tier="quick"):
     R = [np.eye(3), O.rotation_from_axis_angle((1, 0, 0), 90), O.rotation_from_axis_angle((0, 1, 0), 90),
          O.rotation_from_axis_angle((0, 0, 1), 90), O.rotation_from_axis_angle((1, 1, 0), 180)]
-    return R + O.generic_rotations(seed)[:3]
+    R = R + O.generic_rotations(seed)[:3]
+    if tier == "thorough":
+        # every table of generic rotations, the 24 exact proper signed permutations, and rotations within 1e-3 .. 2 degrees of 180
+        for tab in range(len(O.GENERIC_ROTATIONS)):
+            R += O.generic_rotations(tab)
+        for perm in itertools.permutations(range(3)):
+            for signs in itertools.product((1.0, -1.0), repeat=3):
+                P = np.zeros((3, 3))
+                for r_ in range(3):
+                    P[r_, perm[r_]] = signs[r_]
+                if np.linalg.det(P) > 0:
+                    R.append(P)
+        for ax in ((1, 2, 3), (0, 0, 1), (1, -1, 0)):
+            for d in (178.0, 179.5, 179.999, 0.001, 1e-6):
+                R.append(O.rotation_from_axis_angle(ax, d))
+    return R
+
+
+STRAINS_T = [np.diag([1e-2, -2e-2, 5e-3]), np.array([[0, 1e-2, 0], [1e-2, 0, 0], [0, 0, 0.0]]), np.array([[1e-4, 2e-4, -3e-4], [2e-4, -1e-4, 1e-4], [-3e-4, 1e-4, 5e-5]]),
+             np.array([[2e-2, 1e-2, -1e-2], [1e-2, -3e-2, 2e-2], [-1e-2, 2e-2, 1e-2]]), np.diag([1e-6, 0.0, -1e-6]), np.diag([5e-2, 5e-2, -5e-2])]
+
+
+def strains(tier):
+    return STRAINS + (STRAINS_T if tier == "thorough" else [])
 
 
 def make_ubi(cell, U, eps):
@@ -49,7 +72,7 @@ def seed_of():
 
 
 def plan(tier, seed):
-    shards = [("ubi", ci) for ci in range(len(CELLS))]
+    shards = [("ubi", ci, tier) for ci in range(len(CELLS))]
     nmax = 4 if tier == "quick" else 6
     for n in range(1, nmax + 1):
         shards.append(("mask", n))
@@ -149,15 +172,15 @@ def _mods():
 
 
 def _run_ubi(desc):
-    _, ci = desc
+    _, ci, tier = desc
     mods = _mods()
     sh = Shard()
     cell = CELLS[ci]
     oblique = any(abs(x - 90) > 1e-9 for x in cell[3:])
-    for ri, U in enumerate(rotations(seed_of())):
-        for si, eps in enumerate(STRAINS):
+    for ri, U in enumerate(rotations(seed_of(), tier)):
+        for si, eps in enumerate(strains(tier)):
             ubi = make_ubi(cell, U, eps)
-            case = {"kind": "ubi", "cell": cell, "rotation": ri, "strain": si, "seed": seed_of(), "ubi": ubi}
+            case = {"kind": "ubi", "cell": cell, "rotation": ri, "strain": si, "seed": seed_of(), "ubi": ubi, "tier": tier}
             check_ubi(sh, mods, ubi, cell, U, eps, case)
             sh.evaluations += 1
             if oblique or ri > 0:
@@ -334,8 +357,8 @@ def replay(case):
     sh = Shard()
     if case["kind"] == "ubi":
         ci = CELLS.index(case["cell"])
-        U = rotations(case.get("seed", 0))[case["rotation"]]
-        eps = STRAINS[case["strain"]]
+        U = rotations(case.get("seed", 0), case.get("tier", "quick"))[case["rotation"]]
+        eps = strains(case.get("tier", "quick"))[case["strain"]]
         check_ubi(sh, _mods(), make_ubi(case["cell"], U, eps), case["cell"], U, eps, case)
     elif case["kind"] == "mask":
         r = _run_mask(("mask", int(np.prod(case["shape"]))))
